@@ -19,6 +19,11 @@ type FaultyStorage struct {
 	mu sync.Mutex
 	// one-shot injected errors (cleared when consumed)
 	FailOpen, FailInit, FailClose, FailPut error
+	// FailWrites, while non-nil, makes every Put and PutBatch fail (not one-shot: arm it for the
+	// duration of a step with ArmWrites(err), heal it with ArmWrites(nil))
+	FailWrites error
+	// WriteFailures counts the writes refused because of FailPut / FailWrites
+	WriteFailures int
 
 	// observed life cycle of the wrapped storage
 	Opens, Closes int
@@ -81,14 +86,38 @@ func (f *FaultyStorage) Close() error {
 	return nil
 }
 
-func (f *FaultyStorage) Put(a oid.Address, b []byte) error {
+// ArmWrites sets (or, with nil, clears) the persistent write failure.
+func (f *FaultyStorage) ArmWrites(err error) {
 	f.mu.Lock()
-	err := take(&f.FailPut)
+	f.FailWrites = err
 	f.mu.Unlock()
+}
+
+func (f *FaultyStorage) writeErr() error {
+	f.mu.Lock()
+	defer f.mu.Unlock()
+	err := take(&f.FailPut)
+	if err == nil {
+		err = f.FailWrites
+	}
 	if err != nil {
+		f.WriteFailures++
+	}
+	return err
+}
+
+func (f *FaultyStorage) Put(a oid.Address, b []byte) error {
+	if err := f.writeErr(); err != nil {
 		return err
 	}
 	return f.Storage.Put(a, b)
+}
+
+func (f *FaultyStorage) PutBatch(m map[oid.Address][]byte) error {
+	if err := f.writeErr(); err != nil {
+		return err
+	}
+	return f.Storage.PutBatch(m)
 }
 
 // State returns (read-only?, closed?) of the wrapped storage as last driven through the wrapper.
